@@ -526,7 +526,6 @@ func c01Framing(a *A, r *Roles) {
 	_ = types.Typ
 }
 
-
 // freshCopyOf: v is a byte slice allocated with make and filled by exactly one copy (possibly inside an in-package helper
 // whose single return is such a slice); returns the canonical terms of its length and of the copied source.
 func freshCopyOf(t *tb, v ssa.Value, depth int) (string, string, bool) {
